@@ -98,7 +98,7 @@ def single_preemptions(pilot, max_points=None, rng=None):
     return out
 
 
-def double_preemptions(scn, first_filter, window=60, run=None):
+def double_preemptions(scn, first_filter, window=60, run=None, second="preempted", second_filter=None):
     """Targeted two-pre-emption enumeration: a first forced switch at every
     pilot yield point accepted by first_filter(site, running_tid), then a
     second one at each of the next `window` yield points of the thread that
@@ -115,11 +115,18 @@ def double_preemptions(scn, first_filter, window=60, run=None):
             p2 = o2.pilot
             finish(o2)
             seen = 0
+            # second switch: at yield points of the thread that was pre-empted first
+            # ("preempted", after it resumes) or of the thread switched to ("target")
+            who = cur if second == "preempted" else tid
             for e2 in p2:
-                if e2[0] <= step or e2[3] != cur:
+                if e2[0] <= step or e2[3] != who:
+                    continue
+                if second_filter is not None and not second_filter(e2[2]):
                     continue
                 seen += 1
                 if seen > window:
                     break
                 for tid2 in e2[1]:
+                    if second == "target" and tid2 != cur:
+                        continue
                     yield {str(step): tid, str(e2[0]): tid2}
